@@ -20,6 +20,14 @@ CHECKS = {
             "Same TLC-generated input space as C01; for each token the harness measures its location in the caller's array by slice address, capacity, the bytes it differs in from the pristine input, uncovered bytes before it, sub-slice containment and (CSS/JS) whether lexing it alone yields it again; TLC validates every token event against TokenStream.tla.",
             "Gap/edit rules for HTML/XML are judged up to the first error report (DESIGN.md §4 C02 reading). RegExp() results are outside this property. Trusted: TLC, slice-address arithmetic.",
             "DESIGN.md §4 C02"),
+    "C10": ("TLA+ push-down monitor JsonStream.tla judging, by TLC trace validation, the units json.Parser returns for documents TLC derives from the RFC 8259 grammar (JsonGrammar.tla), for every token-class sequence, and for mutated documents",
+            "TLC derives every document skeleton of RFC 8259 up to 11 (quick) / 15 (thorough) tokens and every sequence of token classes up to 5 / 6; the harness spells each several times (all escape, number and literal forms, whitespace at every structural position), mutates the grammatical ones, parses them with the real parser and logs every unit with its location, State() before/after and the separators between units; TLC validates every event against JsonStream.tla: nesting and matching of Start/End, State() = innermost container, non-string key / missing colon / missing comma are errors not units, and for inputs encoding/json accepts: no parse error and the re-joined units equal encoding/json.Compact of the input.",
+            "Bounded document size; spellings sampled by seed. Validity and the whitespace-free form are taken from encoding/json as the statement names it. Units are judged up to the first error report.",
+            "DESIGN.md §4 C10"),
+    "C19": ("TLA+ spec Binary.tla (reader/writer/bitmap semantics from the statement and io contracts) with TLC-generated call sequences replayed on every backend, an implementation-shaped model BinaryImpl.tla checked to refine it, and TLC trace validation of recorded histories",
+            "TLC enumerates call sequences (typed reads of all widths, ReadBytes, Read, ReadAt, Seek with every whence and target in [-1, Len+1], writer round trips, bitmap reads) over data of length <= 9 in both byte orders; each scenario is executed on ten reader backends (memory, Bytes()-reader, io.Reader with and without EOF-with-data, read-all, ReadSeeker with and without known length, ReaderAt, file, mmap) and every execution that deviates from the canonical expectation, plus random histories, is validated event by event by TLC against Binary.tla.",
+            "Bounded depth (2-4 calls) and data length; 64-bit values are compared as byte sequences. Not driven: ReadString/WriteString, Clone, InPageCache, invalid whence. Trusted: TLC, the harness's backend constructors.",
+            "DESIGN.md §4 C19"),
 }
 NOT_APPLICABLE = {
 }
